@@ -253,7 +253,10 @@ StartFn ==
   /\ LET f == CurFn
          sc == [n \in {f.params[i].n : i \in DOMAIN f.params} |-> [t |-> f.params[CHOOSE i \in DOMAIN f.params : f.params[i].n = n].t, used |-> TRUE]] IN
      /\ ctl' = <<[b |-> f.body, i |-> 1, kind |-> "fn"]>> /\ env' = <<sc>>
-     /\ errs' = IF f.ret # <<>> /\ ~Terminating(f.body) THEN Err("missing return") ELSE errs
+     \* (Go: "duplicate argument": the parameters of a function are declared in one block; the blank identifier may repeat)
+     /\ errs' = IF \E i, j \in DOMAIN f.params : i < j /\ f.params[i].n = f.params[j].n /\ f.params[i].n # "_"
+                THEN Err((CHOOSE n \in {f.params[i].n : i \in DOMAIN f.params} : \E i, j \in DOMAIN f.params : i < j /\ f.params[i].n = n /\ f.params[j].n = n) \o " redeclared in this block")
+                ELSE IF f.ret # <<>> /\ ~Terminating(f.body) THEN Err("missing return") ELSE errs
      /\ UNCHANGED <<pid, fi, done>>
 
 Advance(c) == [c EXCEPT ![Len(c)] = [@ EXCEPT !.i = @ + 1]]
